@@ -59,9 +59,9 @@ func c16GenCache(r *verifh.Rng) []verifh.Section {
 		if limit == 0 {
 			nkeys = r.Range(1, 6)
 		}
-		// default expiry (seconds): short ones so that entries expire inside the section;
-		// some longer than one revolution of the 300-slot wheel
-		exps := []int{2, 2, 3, 5, 10, 20, 299, 300, 301, 650}
+		// default expiry (seconds): short ones so that entries expire inside the section (1 s: the jitter
+		// takes about half of them below the wheel's resolution); some longer than one revolution of the wheel
+		exps := []int{1, 2, 3, 5, 10, 20, 299, 300, 301, 650}
 		expire := exps[r.Intn(len(exps))]
 		jit := func() int64 {
 			switch r.Intn(4) {
@@ -81,11 +81,14 @@ func c16GenCache(r *verifh.Rng) []verifh.Section {
 			k := r.Intn(nkeys)
 			switch x := r.Intn(100); {
 			case x < 25:
-				e := expire
+				e := expire * 1000000000
 				if r.Chance(1, 3) {
-					e = exps[r.Intn(len(exps))]
+					e = exps[r.Intn(len(exps))] * 1000000000
+				} else if r.Chance(1, 8) {
+					// below the wheel's resolution of one second
+					e = r.Pick(2, 300000000, 900000000, 999999999)
 				}
-				ops = append(ops, fmt.Sprintf("set %d %d %d %d", k, val, e*1000000000, jit()))
+				ops = append(ops, fmt.Sprintf("set %d %d %d %d", k, val, e, jit()))
 				val++
 			case x < 45:
 				ops = append(ops, fmt.Sprintf("get %d", k))
@@ -114,27 +117,6 @@ func c16GenCache(r *verifh.Rng) []verifh.Section {
 			ops = append(ops, fmt.Sprintf("get %d", k))
 		}
 		secs = append(secs, verifh.Section{Cfg: fmt.Sprintf("s=cache limit=%d expire=%d", limit, expire*1000000000), Ops: ops})
-	}
-	if !verifh.Thorough() {
-		return secs
-	}
-	// sub-second expiry (outside the property: the wheel's resolution is one second): compared with the model only
-	for i := 0; i < 30; i++ {
-		var ops []string
-		for j := 0; j < 30; j++ {
-			k := r.Intn(3)
-			switch r.Intn(4) {
-			case 0:
-				ops = append(ops, fmt.Sprintf("set %d %d %d %d", k, j+1, r.Pick(300000000, 900000000, 1000000000, 1040000000), c16RandJ(r)))
-			case 1:
-				ops = append(ops, fmt.Sprintf("get %d", k))
-			case 2:
-				ops = append(ops, "tick")
-			default:
-				ops = append(ops, "st")
-			}
-		}
-		secs = append(secs, verifh.Section{Cfg: fmt.Sprintf("s=cache limit=%d expire=1000000000 subsecond=1", r.Intn(3)), Ops: ops})
 	}
 	return secs
 }
